@@ -373,12 +373,23 @@ def run(ctx):
     dist = G.Counter()
     seen = set()
     disagreements, failures, samples = [], [], []
-    ncases = nops = nstreams = 0
+    ncases = nops = notrun = 0
     sampled = set()
     for batch in batches(rng, ctx.tier):
         impl, model = ctx.both(batch, shards=shards)
+        # a harness process that hung or died takes the rest of its shard with it: run those cases again (twice at most)
+        for _ in range(2):
+            lost = [ci for ci in range(len(batch)) if all(o == "missing" for o in impl[ci])]
+            if not lost:
+                break
+            again = exec_cases(ctx.harness, [batch[ci] for ci in lost], shards=shards)
+            for ci, obs in zip(lost, again):
+                impl[ci] = obs
         verdicts = exec_cases(ctx.driver, [Case(chk_lines(c.ops, impl[ci])) for ci, c in enumerate(batch)], shards=shards)
         for ci, c in enumerate(batch):
+            if all(o == "missing" for o in impl[ci]):
+                notrun += 1        # still not run: an earlier case killed the process each time; that case is the finding
+                continue
             ncases += 1
             nops += len(c.ops)
             kind = c.label.split(":")[0]
@@ -418,12 +429,13 @@ def run(ctx):
         done.add(f["signature"])
         head = [o for o in f["ops"] if o.startswith("fr new") or o.startswith("fr open")]
         tail = [o for o in f["ops"] if o not in head]
+        want = " ".join(f["predicate"]["value"].split(" ")[:2])     # shrink towards the same kind of failure
 
         def fails(cand):
             ops = head + cand
             io, _ = run_ops(ctx.harness, ops, timeout=120)
             vo, _ = run_ops(ctx.driver, chk_lines(ops, io), timeout=120)
-            return any(v.startswith("fails") for v in vo)
+            return any(" ".join(v.split(" ")[:2]) == want for v in vo)
 
         try:
             if len(tail) <= 400 and fails(tail):
@@ -432,7 +444,7 @@ def run(ctx):
                 io, _ = run_ops(ctx.harness, ops, timeout=120)
                 mo, _ = run_ops(ctx.driver, ops, timeout=120)
                 vo, _ = run_ops(ctx.driver, chk_lines(ops, io), timeout=120)
-                k = next((k for k, v in enumerate(vo) if v.startswith("fails")), len(ops) - 1)
+                k = next((k for k, v in enumerate(vo) if " ".join(v.split(" ")[:2]) == want), len(ops) - 1)
                 f.update({"ops": ops, "impl": io[k][:400] if k < len(io) else "", "model": mo[k][:400] if k < len(mo) else "",
                           "op_index": k, "shrunk": True, "predicate": {"name": f["predicate"]["name"], "value": vo[k][:300]}})
         except Exception as e:   # shrinking is a convenience only
@@ -443,6 +455,10 @@ def run(ctx):
     ordered = list(bysig.values()) + [f for f in failures if bysig[f["signature"]] is not f]
     n_single, n_double = (200, 40) if ctx.tier == "quick" else (1500, 400)
     dist.update(STATS)
+    if notrun:
+        dist["not-run (the harness process hung or died in an earlier case)"] = notrun
+        if not failures and not disagreements:
+            disagreements.append({"ops": [], "impl": "missing", "model": "", "label": "harness died", "explained_by_predicate_failure": False})
     return {"evaluations": ncases, "distinct_nontrivial": len(seen), "samples": samples, "distribution": dict(dist),
             "disagreements": disagreements, "predicate_failures": ordered[:60], "out_of_domain_disagreements": 0,
             "exhaustive": False,
